@@ -8,6 +8,7 @@
     what is handed to the consumer. *)
 From Coq Require Import Permutation.
 From Brood Require Import Base World Kinds Tables Sched Query Par BaseFacts Inv QueryFacts ParFacts.
+From Brood Require Import Query Facts Advance AdvanceFacts.
 
 (** For every consumer obeying rayon's contract and every splitting, the custom
     ResultsConsumer/ResultsFolder drives exactly the sequential item sequence. *)
@@ -68,3 +69,11 @@ Example C09_example :
   repeat_none_items 5 (INodeN 2 ILeafN (INodeN 9 ILeafN ILeafN)) = [None; None; None; None; None] /\
   map fst (zip_items [[7%N; 8%N; 9%N]] 0 3 (INodeN 1 ILeafN (INodeN 1 ILeafN ILeafN))) = [0; 1; 2].
 Proof. vm_compute. auto. Qed.
+
+
+(** the parallel view of an archetype ([registry/sealed/par_view.rs]) selects its columns by the same walk as the
+    sequential one: one column consumed for every component the archetype has — read off the source together
+    with the sequential sites; so each row item handed to a worker is the item the sequential query yields *)
+Theorem C09_par_view_walk : forall k bits cols vs, walk_src k bits cols vs = walk k bits cols vs.
+Proof. exact walk_src_is_walk. Qed.
+Print Assumptions C09_par_view_walk.
